@@ -15,7 +15,9 @@ static void emit(const char* fn, const std::string& src, size_t n, const std::st
 
 template <class F>
 static void grid_call(const char* fn, const std::string& src, size_t n, F call) {
-  const size_t guard = 4;
+  // the guard region after the buffer is longer than the source string: a write at ANY offset a copy of this string could
+  // compute (not only the byte right after the buffer) lands inside the block and shows in the image
+  const size_t guard = src.size() + 48;
   // heap block of exactly n+guard bytes; image printed whole
   std::vector<char> buf(n + guard, (char)0xAA);
   std::string before(buf.data(), buf.size());
@@ -34,10 +36,12 @@ int main(int argc, char** argv) {
   // two string families per length: ASCII, and multi-byte UTF-8 (2-, 3- and 4-byte characters, so that every
   // buffer size also falls inside a character)
   static const char* kUnits[] = {"\xc3\xa9", "\xe4\xb8\xad", "\xf0\xa0\x80\x80", "x"};
-  for (size_t pass = 0; pass < 2; ++pass)
+  // pass 2: ASCII again, the directory spelled with a trailing separator (as a client may pass it in RimeTraits)
+  for (size_t pass = 0; pass < 3; ++pass)
   for (size_t len = 0; len <= maxlen; ++len) {
     std::string v;
-    if (pass == 0) {
+    if (pass == 0 || pass == 2) {
+      if (pass == 2 && len < 3) continue;
       for (size_t i = 0; i < len; ++i) v.push_back("luna_pinyin"[i % 11]);
     } else {
       if (len < 2) continue;
@@ -48,6 +52,7 @@ int main(int argc, char** argv) {
       }
     }
     std::string p = len ? "/" + v.substr(1) : v;
+    if (pass == 2) p[p.size() - 1] = '/';
     if (len) api->set_property(s, "k", v.c_str());
     if (len) api->select_schema(s, v.c_str());
     api->config_set_string(&cfg, "k", v.c_str());
